@@ -22,9 +22,12 @@ def emit(prog_path, level):
 
 
 def rustc(src_path, exe_path, numlib=None):
-    """-> (ok, diagnostics). One retry to rule out an infrastructure hiccup."""
+    """-> (ok, diagnostics). One retry to rule out an infrastructure hiccup.
+    With the release number library the program is compiled the way `hyeong build` does (cargo --release):
+    optimised, overflow checks off."""
+    release = numlib is not None and '/release/' in numlib
     numlib = numlib or C.NUMLIB
-    cmd = ['rustc', '--edition', '2018', '-C', 'debuginfo=0', '-C', 'opt-level=0', '-C', 'overflow-checks=on',
+    cmd = ['rustc', '--edition', '2018', '-C', 'debuginfo=0'] + (['-C', 'opt-level=3'] if release else ['-C', 'opt-level=0', '-C', 'overflow-checks=on']) + [
            '--extern', 'hyeong=' + numlib, '-L', 'dependency=' + os.path.join(os.path.dirname(numlib), 'deps'),
            src_path, '-o', exe_path]
     env = {'HOME': C.REAL_HOME}
